@@ -170,7 +170,7 @@ CLAIMED = {
         "clock, step nor records; the export loop writes sample n, species s, cell i at n*S*C + s*C + i. Tied to the code on every run: "
         "random scripts x three engines x grid/graph x four policies, call sequences mixing iterate, iterate_n, run(0), sample and "
         "continuing after completion; trajectory.t, len(data), is_complete and get_progress after each call, the engine clock and the "
-        "content of each record are compared with the model (exactly; the Gillespie model is driven by the observed clock increments).",
+        "content of each record are compared with the model (exactly; the Gillespie model is driven by the observed clock increments). String enumerations re-read from the source on every run (harness/translate_enums.py, fail-closed; Model/Enums.v, obligations in Proofs/EnumFacts.v by closed computation): every sampling policy the script accepts is dispatched by both engine initialisers (grid, graph) to the same code, whose case in SamplingStep of the respective base class calls the sampler the policy names, and the engine knows no other policy string (C09_policy_dispatch).",
         "Trusted: Coq kernel + VM; the hand-written model of Init / SamplingStep / SampleOnTSample / SampleOnInterval / Sample / CheckTMax / "
         "Iterate / iterate_n (the chemical state is abstracted to its step number; the order of the two tests in SampleOnTSample's loop "
         "condition is C11's subject) tied by sampled correspondence (400 scripts quick, 8000 thorough); clocks are dyadic so that binary64 "
@@ -257,7 +257,7 @@ CLAIMED = {
         "index/tuple/object, invalid addresses) incl. species edits followed by regeneration; verdict computed in Coq.",
         "Trusted: Coq kernel + VM; the hand-written model of generate_system_state / generate_system_chemostats / get_value_in_env / "
         "get_state_index / set_state (tied by sampled correspondence: 300 systems quick, 5000 thorough); environment indices are "
-        "generated valid (invalid ones belong to C20); binary64 compared at relative 1e-9; the Python harness.",
+        "generated valid (invalid ones belong to C20); binary64 compared at relative 1e-9; the translator harness/translate_enums.py (Python ast for the validators' membership tests and engine_collection.py; regular expressions over comment-free engine.cpp / *Base.hpp for the CompareStr chains and the SamplingStep switch; any other shape is an error); the Python harness.",
         "DESIGN.md section 6 / C13"),
     "C14": (
         "Coq proof that the redistribution returns (after exactly |surplus| draws, whatever the uniforms) non-negative integers with the floored total and nothing where the real amount is zero, that the Poisson stage is position-wise / non-negative / zero-preserving, that 'none' is the identity + exact replay of the processing from the seed",
@@ -270,7 +270,7 @@ CLAIMED = {
         "run: sample 0 of trajectories for four init_state_processing values x three engines x grid/graph on random real-valued states "
         "(sub-molecule, fractional, integral, around the thresholds 12 and 100, above 100, empty cells, seeds 0 / 1 / 2^31-1): replayed "
         "EXACTLY from the seed in Coq where all amounts are below 12 (mt19937, generate_canonical, small-mean Poisson, correction loop), "
-        "checked against the stated invariants otherwise; two set-ups with the same seed must agree.",
+        "checked against the stated invariants otherwise; two set-ups with the same seed must agree. String enumerations re-read from the source on every run (harness/translate_enums.py, fail-closed; Model/Enums.v, obligations in Proofs/EnumFacts.v by closed computation): every processing mode the script accepts is resolved by both initialisers to the documented action (none: keep, Poisson: draw, redist: redistribute, auto: by the engine's stochasticity), every branch transposes the amounts to cell-major order, and requires_molecules of engine_collection.py is is_stochastic of engine.cpp (C14_mode_dispatch, C14_engine_options).",
         "Trusted: Coq kernel + VM; the hand-written model of GenerateStochasticDistribution / PoissonSample / the mode dispatch tied by "
         "replay (about 3/4 of 400 cases quick, 10000 thorough) and by invariants for amounts >= 12 (libstdc++'s large-mean Poisson and "
         "normal_distribution are not modelled); that the draws are Poisson-distributed is the library's contract; the exp enclosure "
@@ -285,7 +285,7 @@ CLAIMED = {
         "neighbour table is an involution under direction reversal. Tied to the code on every run by an exhaustive sweep of all grids "
         "with w*h*d <= 24 (quick) / 64 (thorough) through the public API, and, up to 8 / 12 cells, of the kinetics functions and one "
         "step of the freshly compiled Euler engine on the grid and on grid_to_graph(grid) (pure-diffusion probe x_c = 8^c, exact). "
-        "grid_to_graph's node and edge lists are compared with the model's edge multiset (adjacency, surface h^2, distance h).",
+        "grid_to_graph's node and edge lists are compared with the model's edge multiset (adjacency, surface h^2, distance h). String enumerations re-read from the source on every run (harness/translate_enums.py, fail-closed; Model/Enums.v, obligations in Proofs/EnumFacts.v by closed computation): the grid's two boundary-condition strings are the ones engine.cpp compares against, per axis and index (C15_boundary_strings).",
         "Trusted: Coq kernel + VM; the hand-written Gallina transcription of rdgridspace.py / kinetics.py candidates / GetNeighborIndex / "
         "grid_to_graph (tied by the exhaustive sweep on the stated bound, not beyond); the statement that grid_to_graph preserves the "
         "edge multiset and that graph dynamics equal grid dynamics is established by correspondence only (exhaustive on the bound), "
@@ -318,11 +318,11 @@ CLAIMED = {
         "last), closest the nearer of the bracketing pair with ties to the earlier and the end samples outside the range. Tied to "
         "rdoutput.py on every run: exhaustive over shapes N,S,C <= 4 (5 thorough) x grid/graph, every triple through every accessor "
         "with species by index/label/object and cells by index/tuple/object, sample times with and without duplicates, queries "
-        "before/after/on/between samples in several time units; verdict in Coq (exact equality for reads).",
+        "before/after/on/between samples in several time units; verdict in Coq (exact equality for reads). String enumerations re-read from the source on every run (harness/translate_enums.py, fail-closed; Model/Enums.v, obligations in Proofs/EnumFacts.v by closed computation): the look-up policies get_sample_index accepts are exactly closest, supeq, infeq (C17_lookup_policies).",
         "Trusted: Coq kernel + VM; the hand-written model of the numpy reshape-based accessors (row-major) and of the three look-up "
         "loops, tied by the exhaustive sweep on the stated bound; closest is claimed on strictly increasing times only (with duplicate "
         "times 'ties to the earlier' is not meaningful); negative / out-of-range sample indices are not part of the statement; queries "
-        "in other time units are generated only where conversion rounding cannot flip the answer; the Python harness.",
+        "in other time units are generated only where conversion rounding cannot flip the answer; the translator harness/translate_enums.py (Python ast for the validators' membership tests and engine_collection.py; regular expressions over comment-free engine.cpp / *Base.hpp for the CompareStr chains and the SamplingStep switch; any other shape is an error); the translator harness/translate_enums.py (Python ast for the validators' membership tests and engine_collection.py; regular expressions over comment-free engine.cpp / *Base.hpp for the CompareStr chains and the SamplingStep switch; any other shape is an error); the translator harness/translate_enums.py (Python ast for the validators' membership tests and engine_collection.py; regular expressions over comment-free engine.cpp / *Base.hpp for the CompareStr chains and the SamplingStep switch; any other shape is an error); the Python harness.",
         "DESIGN.md section 6 / C17"),
     "C18": (
         "Coq proof over code points: print-then-parse of any unit (1100 systems x Z^3 exponents) is the identity up to Units.__eq__, value round trip under the float print/read hypothesis, meaning of each of the 47 symbols with any exponent, a/b = a.b-1, exponent text + exhaustive symbol/pair sweep, malformed stream, bit-exact double round trip",
@@ -376,10 +376,10 @@ CLAIMED = {
         "naming an environment outside [0, nenv); unknown boundary condition / axis / sampling policy / processing mode; empty environment "
         "list and 'default'; positions outside grids and graphs through six accessors; unknown species; invalid coarse-graining maps. "
         "Which inputs are invalid is computed by `invalid` (Model/AcceptC20.v) from the models of C05/C06/C12/C15/C16/C18; the package must "
-        "raise exactly on those and leave state and chemostat map untouched.",
+        "raise exactly on those and leave state and chemostat map untouched. String enumerations re-read from the source on every run (harness/translate_enums.py, fail-closed; Model/Enums.v, obligations in Proofs/EnumFacts.v by closed computation): what the validators accept - sampling policies, processing modes, axes, boundary conditions, look-up policies - is what the documentation lists, no more and no less (C20_validators_agree); the correspondence draws look-up policies too (finding F21).",
         "Trusted: Coq kernel + VM; `invalid` for the classes that are plain range / membership tests (sizes, environment maps and names, "
         "choices, graph positions, species references) is the specification itself, read off the statement; sampled injection sites; "
-        "get_species_index returning None (documented) counts as a rejection; the Python harness.",
+        "get_species_index returning None (documented) counts as a rejection; the translator harness/translate_enums.py (Python ast for the validators' membership tests and engine_collection.py; regular expressions over comment-free engine.cpp / *Base.hpp for the CompareStr chains and the SamplingStep switch; any other shape is an error); the Python harness.",
         "DESIGN.md section 6 / C20"),
 }
 
